@@ -256,6 +256,41 @@ Theorem c02_rpc_requests_independent : forall crash hs ls ss,
 Proof. exact t_rpc_requests_independent. Qed.
 Print Assumptions c02_rpc_requests_independent.
 
+(* ------------------------------------------------------------------ configuration: which deadline, which writers *)
+(* The deadline of a route is its own timeout when it has one, else the server-wide one -- in particular a route
+   timeout applies even when the server-wide timeout is 0, and every positive deadline puts the request behind the
+   timeout guard, for which all the theorems above hold; only 0/0 leaves the handler unguarded (bypass). *)
+Theorem c02_effective_deadline : forall g r,
+  (0 < r -> effective_timeout g r = r) /\
+  (r <= 0 -> effective_timeout g r = g) /\
+  (effective_timeout g r = 0 <-> (r <= 0 /\ g = 0) ) /\
+  (forall t, rpc_has_timeout t = true <-> 0 < t).
+Proof. exact t_effective_deadline. Qed.
+Print Assumptions c02_effective_deadline.
+
+(* The writers the engine puts around the guards (log handler -- brief or, with Config.Verbose, detailed --, breaker's
+   WithCodeResponseWriter) hand every call on unchanged and completely: whatever sequence of WriteHeader/Write
+   calls the guards make, the wrapped writer receives exactly that sequence, bodies of any size byte for byte; the
+   wrapper only keeps the last code and a copy of the body. *)
+Theorem c02_log_wrappers_transparent : forall evs w c b,
+  lw_inner (fold_left lw_apply evs (mklw w c b)) = fold_left rw_apply evs w /\
+  lw_buf (fold_left lw_apply evs (mklw w c b)) =
+  (b ++ flat_map (fun e => match e with RWrite bs => bs | _ => [] end) evs)%list.
+Proof. exact lw_transparent. Qed.
+Print Assumptions c02_log_wrappers_transparent.
+
+(* FINDING (replayed on a real started server by the correspondence, class breaker-swallows-nil-panic): one
+   `recover() != nil` test is left on the path of a unary call -- googleBreaker.doReq, run by the breaker interceptor
+   INSIDE the crash interceptor.  With ServerConfig.Timeout = 0 (no timeout interceptor in between) a handler's
+   panic(nil) is swallowed there and the server answers OK with an empty message instead of Internal; every other
+   value, and nil behind the timeout interceptor, gives Internal.  Computed on the faithful model: *)
+Theorem c02_rpc_server_nil_panic_refuted :
+  rpc_server_direct (HPanics PVNil) = RResult None codeOK /\
+  rpc_direct true (HPanics PVNil) = RResult None codeInternal /\
+  (forall v, v <> PVNil -> rpc_server_direct (HPanics v) = RResult None codeInternal).
+Proof. split; [reflexivity|]. split; [reflexivity|]. intros v Hv. destruct v; try contradiction; reflexivity. Qed.
+Print Assumptions c02_rpc_server_nil_panic_refuted.
+
 (* ------------------------------------------------------------------ chain order, from the generated lists *)
 Theorem c02_chain_order :
   guards_of C02_Gen.rest_chain = [GMaxConns; GBreaker; GShedding; GTimeout; GRecover; GMaxBytes] /\
